@@ -1009,6 +1009,21 @@ impl<'a> Elab<'a> {
                 return parse_quote!(match #recv { Ok(__v) => Ok(__v), Err(__e) => Err(#f(__e)) });
             }
         }
+        // `X.map(Type::f)` on a Result where `Type::f` is a function of a back-referencing type (R6) →
+        // `match X { Ok(v) => Ok(Type::f(v, &mut POOL)), Err(e) => Err(e) }`
+        if method == "map" && m.args.len() == 1 {
+            if let Expr::Path(p) = &m.args[0] {
+                let name = path_to_string(&p.path);
+                if self.t.backparam_fns.contains_key(&name) {
+                    let recv = self.fold_expr((*m.receiver).clone());
+                    let f = self.fold_expr(m.args[0].clone());
+                    match self.pool.clone() {
+                        Some(pool) => return parse_quote!(match #recv { Ok(__v) => Ok(#f(__v, &mut #pool)), Err(__e) => Err(__e) }),
+                        None => self.unsupported("mapper of a back-referencing type in a function without pool path", sp),
+                    }
+                }
+            }
+        }
         // dropcall (e.g. `.into()` wrapper conversion, A10)
         if m.args.is_empty() && self.u.dropcall.contains(&method) {
             return self.fold_expr(*m.receiver);
